@@ -184,12 +184,24 @@ pub fn run(ctx: &Ctx) -> Report {
     }
     if cfg!(miri) {
         hists.truncate(2);
+    } else {
+        // long histories (more than 1024 / 2048 writes on one writer, then finalize): periodic
+        // work a writer might do every N-th record (flushes, buffer hand-overs) must surface its
+        // failures too. Fault points are sampled there: every non-write operation and every 41st write.
+        hists.push((0..1100).map(|i| Call::W(i % 3)).chain([Call::F]).collect());
+        if ctx.thorough {
+            hists.push((0..2300).map(|i| Call::W(i % 3)).chain([Call::F, Call::W(0), Call::F]).collect());
+        }
     }
     let items: Vec<(i32, usize, bool)> = types.iter().flat_map(|&t| (0..hists.len()).flat_map(move |h| [false, true].into_iter().map(move |c| (t, h, c)))).collect();
     let mut rep = par(ctx, items.len(), |idx, rep| {
         let (t, hi, complete) = items[idx];
         let hist = &hists[hi];
-        if complete && hist.contains(&Call::F) && hi != 0 {
+        let long = hist.len() > 100;
+        if long && !matches!(t, 1 | 23) {
+            return; // the long histories run for two types
+        }
+        if complete && hist.contains(&Call::F) && hi != 0 && !long {
             return; // the complete writer has no finalize; it runs the W-only projection of history 0 and the W-only histories
         }
         let hist: Vec<Call> = if complete { hist.iter().filter(|c| **c != Call::F).cloned().collect() } else { hist.clone() };
@@ -210,7 +222,14 @@ pub fn run(ctx: &Ctx) -> Report {
         let n_ops: Vec<usize> = golden_dests.iter().map(|d| d.n_ops()).collect();
         let ndest = if complete { 3 } else { 2 };
         for di in 0..ndest {
+            let golden_ops = golden_dests[di].ops();
             for k in 0..n_ops[di] + 2 {
+                if long {
+                    let is_write = matches!(golden_ops.get(k), Some((_, Op::Write(..))));
+                    if is_write && k % 41 != 0 {
+                        continue;
+                    }
+                }
                 // Miri: every 5th fault point (rotating with the destination) keeps the shard short
                 if cfg!(miri) && (k + di) % 5 != 0 {
                     continue;
@@ -277,6 +296,9 @@ pub fn run(ctx: &Ctx) -> Report {
             schedules.push(Chunking::Random(ctx.seed ^ (s as u64 * 7919 + 13), 1 + s % 9));
         }
         for (si, sch) in schedules.iter().enumerate() {
+            if long && si % 16 != 0 {
+                continue;
+            }
             let case = format!("c12:t{}:h{}:{}:chunk{}", t, hi, wname, si);
             if !ctx.want(&case) {
                 continue;
